@@ -32,102 +32,102 @@ package wmpt
 //@ func (Node).CalcHash returns (h)
 //@   assigns heap(routingNode.hash), heap(shortNode.hash), heap(valueNode.hash)
 
-//@ func (*routingNode).Hash returns (h)
+//@ func (*routingNode).Hash(r) returns (h)
 //@   props C15
 //@   assigns nothing
-//@ func (*valueNode).Hash returns (h)
+//@ func (*valueNode).Hash(v) returns (h)
 //@   props C15
 //@   assigns nothing
-//@ func (*shortNode).Hash returns (h)
+//@ func (*shortNode).Hash(s) returns (h)
 //@   props C15
 //@   assigns nothing
-//@ func (*hashNode).Hash returns (h)
+//@ func (*hashNode).Hash(h) returns (h)
 //@   props C15
 //@   assigns nothing
-//@ func (*nilNode).Hash returns (h)
+//@ func (*nilNode).Hash(n) returns (h)
 //@   props C15
 //@   assigns nothing
 
-//@ func (*routingNode).Weight returns (w)
+//@ func (*routingNode).Weight(r) returns (w)
 //@   props C15 C09
 //@   assigns nothing
 //@   ensures w == W0(iface(r))                                   #reports-own-weight
-//@ func (*valueNode).Weight returns (w)
+//@ func (*valueNode).Weight(v) returns (w)
 //@   props C15 C09
 //@   assigns nothing
 //@   ensures w == W0(iface(v))                                   #reports-own-weight
-//@ func (*shortNode).Weight returns (w)
+//@ func (*shortNode).Weight(s) returns (w)
 //@   props C15 C10
 //@   assigns nothing
 //@   ensures !(s.value is *shortNode) ==> w == W0(s.value)                 #reports-the-weight-below
-//@ func (*hashNode).Weight returns (w)
+//@ func (*hashNode).Weight(h) returns (w)
 //@   props C15 C09
 //@   assigns nothing
 //@   ensures w == W0(iface(h))                                   #reports-own-weight
-//@ func (*nilNode).Weight returns (w)
+//@ func (*nilNode).Weight(n) returns (w)
 //@   props C15 C09
 //@   assigns nothing
 //@   ensures w == W0(iface(n))                                   #reports-own-weight
 
-//@ func (*routingNode).CalcHash returns (h)
+//@ func (*routingNode).CalcHash(r) returns (h)
 //@   props C15 C11
 //@   mode wrap
 //@   assigns heap(routingNode.hash), heap(shortNode.hash), heap(valueNode.hash)
 //@   loop 1 invariant fresh(m)                  #buffer-is-local
-//@ func (*valueNode).CalcHash returns (h)
+//@ func (*valueNode).CalcHash(v) returns (h)
 //@   props C15 C11
 //@   mode wrap
 //@   assigns v.hash
-//@ func (*shortNode).CalcHash returns (h)
+//@ func (*shortNode).CalcHash(s) returns (h)
 //@   props C15 C11
 //@   mode wrap
 //@   assigns heap(routingNode.hash), heap(shortNode.hash), heap(valueNode.hash)
-//@ func (*hashNode).CalcHash returns (h)
+//@ func (*hashNode).CalcHash(h) returns (h)
 //@   props C15
 //@   assigns nothing
-//@ func (*nilNode).CalcHash returns (h)
+//@ func (*nilNode).CalcHash(n) returns (h)
 //@   props C15
 //@   assigns nothing
 
 // Serialize of each kind: what DeserializeNode accepts re-encodes without panicking.
-//@ func (*routingNode).Serialize returns (data, err)
+//@ func (*routingNode).Serialize(r) returns (data, err)
 //@   props C15 C11
 //@   mode wrap
 //@   assigns r.toCollect, heap(routingNode.hash), heap(shortNode.hash), heap(valueNode.hash)
-//@ func (*valueNode).Serialize returns (data, err)
+//@ func (*valueNode).Serialize(v) returns (data, err)
 //@   props C15 C11
 //@   mode wrap
 //@   assigns v.hash
-//@ func (*shortNode).Serialize returns (data, err)
+//@ func (*shortNode).Serialize(s) returns (data, err)
 //@   props C15 C11
 //@   mode wrap
 //@   assigns s.toCollect, heap(routingNode.hash), heap(shortNode.hash), heap(valueNode.hash)
 
 // Save puts the node into the batch under its hash; only then is the node clean.
-//@ func (*routingNode).Save returns (err)
+//@ func (*routingNode).Save(r, batcher) returns (err)
 //@   props C11
 //@   mode wrap
 //@   requires batcher != nil
 //@   assigns r.dirty, r.toCollect, heap(routingNode.hash), heap(shortNode.hash), heap(valueNode.hash)
 //@   ensures err == nil ==> old(r.dirty) && !r.dirty                         #saved-node-is-clean
 //@   ensures err != nil ==> r.dirty == old(r.dirty)                          #unsaved-node-stays-dirty
-//@ func (*valueNode).Save returns (err)
+//@ func (*valueNode).Save(v, batcher) returns (err)
 //@   props C11
 //@   mode wrap
 //@   requires batcher != nil
 //@   assigns v.dirty, v.hash
 //@   ensures err == nil ==> old(v.dirty) && !v.dirty                         #saved-node-is-clean
 //@   ensures err != nil ==> v.dirty == old(v.dirty)                          #unsaved-node-stays-dirty
-//@ func (*shortNode).Save returns (err)
+//@ func (*shortNode).Save(s, batcher) returns (err)
 //@   props C11
 //@   mode wrap
 //@   requires batcher != nil
 //@   assigns s.dirty, s.toCollect, heap(routingNode.hash), heap(shortNode.hash), heap(valueNode.hash)
 //@   ensures err == nil ==> old(s.dirty) && !s.dirty                         #saved-node-is-clean
 //@   ensures err != nil ==> s.dirty == old(s.dirty)                          #unsaved-node-stays-dirty
-//@ func (*hashNode).Serialize returns (data, err)
+//@ func (*hashNode).Serialize(h) returns (data, err)
 //@   props C15
-//@ func (*nilNode).Serialize returns (data, err)
+//@ func (*nilNode).Serialize(n) returns (data, err)
 //@   props C15
 
 // ---- C15: decoders never panic, terminate, and what they accept re-encodes ----
@@ -141,7 +141,7 @@ package wmpt
 // by insert/delete, but a proof may contain it) is outside what RCons can speak about.
 //@ pred ShapeOK(r *routingNode) = forall j :: 0 <= j && j < 16 ==> (r.Children[j] is *shortNode ==> r.Children[j].(*shortNode) != nil && !(r.Children[j].(*shortNode).value is *shortNode))
 
-//@ func DeserializeNode returns (node, err)
+//@ func DeserializeNode(data) returns (node, err)
 //@   props C15 C10
 //@   mode wrap
 //@   ensures err == nil ==> node != nil && fresh(node)                         #fresh-node
@@ -150,7 +150,7 @@ package wmpt
 //@      | || (branchNode.Children[j] is *shortNode && branchNode.Children[j].(*shortNode) != nil && branchNode.Children[j].(*shortNode).value is *hashNode && allocated(branchNode.Children[j].(*shortNode).value)))      #children-are-claims
 //@   loop 1 invariant RCons(&branchNode) && (forall j :: rangeindex < j && j < 16 ==> branchNode.Children[j] == nil)
 
-//@ func verifyProof returns (node, value, err)
+//@ func verifyProof(persistTrie, block, ind) returns (node, value, err)
 //@   props C15 C10
 //@   mode wrap
 //@   requires persistTrie != nil && ind != nil && *ind >= 0 && *ind <= len(persistTrie.Pairs)
@@ -164,12 +164,12 @@ package wmpt
 //@   assigns *ind, heap(routingNode.hash), heap(routingNode.dirty), heap(shortNode.hash), heap(shortNode.dirty), heap(valueNode.hash), heap(valueNode.dirty)
 //@   loop 1 invariant *ind > old(*ind) && *ind <= len(persistTrie.Pairs)         #ind-advanced
 
-//@ func (*WeightedMerkleTrie).VerifyBlockProof returns (hash, value, err)
+//@ func (*WeightedMerkleTrie).VerifyBlockProof(t, block, proof) returns (hash, value, err)
 //@   props C15
 //@   mode wrap
 //@   requires t != nil
 
-//@ func (*WeightedMerkleTrie).deserializeTrie returns (node, err)
+//@ func (*WeightedMerkleTrie).deserializeTrie(t, pairs, ind) returns (node, err)
 //@   props C15 C12
 //@   mode wrap
 //@   requires ind != nil && *ind >= 0 && *ind <= len(pairs)
@@ -179,7 +179,7 @@ package wmpt
 //@   assigns *ind
 //@   loop 1 invariant *ind > old(*ind) && *ind <= len(pairs)                     #ind-advanced
 
-//@ func (*WeightedMerkleTrie).Deserialize returns (err)
+//@ func (*WeightedMerkleTrie).Deserialize(t, data) returns (err)
 //@   props C15 C12
 //@   mode wrap
 //@   requires t != nil
@@ -202,14 +202,14 @@ package wmpt
 // Keys inside the trie are nibble strings.
 //@ pred Nibbles(k []byte) = forall i :: 0 <= i && i < len(k) ==> k[i] < 16
 
-//@ func commonPrefix returns (n)
+//@ func commonPrefix(a, b) returns (n)
 //@   props C09
 //@   assigns nothing
 //@   ensures 0 <= n && n <= len(a) && n <= len(b) && (forall i :: 0 <= i && i < n ==> a[i] == b[i])      #is-common-prefix
 //@   ensures n < len(a) && n < len(b) ==> a[n] != b[n]                                                    #maximal
 //@   loop 1 invariant 0 <= i && i <= length && length <= len(a) && length <= len(b) && (forall j :: 0 <= j && j < i ==> a[j] == b[j])
 
-//@ func keybytesToHex returns (nibbles)
+//@ func keybytesToHex(str) returns (nibbles)
 //@   props C09
 //@   mode wrap
 //@   assigns nothing
@@ -219,7 +219,7 @@ package wmpt
 // A-store (assumed, trusted contract): what is loaded under a hash node's hash is the node that was
 // stored there, so it reports the weight recorded in the hash node.
 //@ ufun StoresValue(h Ref) bool
-//@ func (*WeightedMerkleTrie).resolveHashNode returns (n, err)
+//@ func (*WeightedMerkleTrie).resolveHashNode(t, node) returns (n, err)
 //@   trusted
 //@   requires node != nil
 //@   assigns nothing
@@ -228,7 +228,7 @@ package wmpt
 // insert returns the weight delta of the subtree it was given: new weight = old weight + change.
 // In the path-exhausted case (len(key) == 0) no recursion is involved and the clause is exact; the
 // recursive cases need a separation (tree-shape) argument that is outside the contracts here.
-//@ func (*WeightedMerkleTrie).insert returns (change, n2, err)
+//@ func (*WeightedMerkleTrie).insert(t, node, prefix, key, value) returns (change, n2, err)
 //@   props C09
 //@   mode wrap
 //@   opt only ^post#
@@ -246,14 +246,14 @@ package wmpt
 //@      | ==> heapof(valueNode.value) == old(heapof(valueNode.value)) && heapof(valueNode.weight) == old(heapof(valueNode.weight))                      #clean-value-means-not-overwritten
 
 // ================= C13: checkpoint and rollback (the local part: the root handed back) =================
-//@ func (*WeightedMerkleTrie).SaveRoot
+//@ func (*WeightedMerkleTrie).SaveRoot(t)
 //@   props C13
 //@   mode wrap
 //@   requires t != nil
 //@   assigns t.oldRoot, t.created
 //@   ensures t.root != nil && !(t.root is *shortNode) ==> t.oldRoot.weight == W0(t.root)            #checkpoint-records-the-weight
 //@   ensures t.created == nil                                                                       #created-list-restarts
-//@ func (*WeightedMerkleTrie).Rollback
+//@ func (*WeightedMerkleTrie).Rollback(t)
 //@   props C13
 //@   mode wrap
 //@   requires t != nil && t.deleted != nil && (len(t.created) > 0 ==> t.db != nil)
@@ -262,7 +262,7 @@ package wmpt
 //@   ensures old(t.oldRoot.weight) == 0 ==> t.root == iface(emptyNode)                                     #empty-checkpoint-gives-the-empty-trie
 //@   ensures len(t.created) == 0 && t.tempDeleted == nil && len(t.deleted) == 0                     #bookkeeping-is-reset
 //@   loop 1 invariant batcher != nil
-//@ func (*WeightedMerkleTrie).RollbackTrie
+//@ func (*WeightedMerkleTrie).RollbackTrie(t, node)
 //@   props C13
 //@   mode wrap
 //@   requires t != nil && t.root != nil && t.deleted != nil && (len(t.created) > 0 ==> t.db != nil)
